@@ -33,11 +33,14 @@ theorem gen_osap_parseNil_empty (grow : Nat → Nat → Nat) (fuel : Nat)
     (ce : Gen.optSuffixArrayParser → Res Gen.optSuffixArrayParser)
     (s : Gen.optSuffixArrayParser) (blk : Gen.Block') (flags : Int) (h : blockNO s = 0) :
     optSuffixArrayParser_Parse_nilable grow fuel ce s true blk flags = Res.ok (s, blk, (0 : Int), ErrEmptyBuffer) := by
-  unfold blockNO at h
+  -- the clamp in any spelling is a minimum; the test `n == 0` is evaluated as it comes (either arm order)
+  have hmin : Min.min s.OSAPConfig.BlockSize ((Int.ofNat s.ParserBuffer.Data.len) - s.ParserBuffer.W) = 0 := by
+    unfold blockNO at h; rw [← ite_lt_min]; exact h
+  have hmin' : Min.min ((Int.ofNat s.ParserBuffer.Data.len) - s.ParserBuffer.W) s.OSAPConfig.BlockSize = 0 := by
+    rw [Int.min_comm]; exact hmin
   unfold optSuffixArrayParser_Parse_nilable
-  simp only [if_true]
-  rw [h]
-  rfl
+  simp only [if_true, gt_iff_lt, ge_iff_le, ite_lt_min, ite_le_min, hmin, hmin']
+  try (first | rfl | simp)
 
 /-- **`Parse(nil, flags)` of osap.go = `Parser.parseNil`**, per call, under `ParseOKO` alone. -/
 theorem gen_osap_parseNil (B : Nat) (grow : Nat → Nat → Nat) (fuel : Nat)
@@ -89,10 +92,17 @@ theorem gen_osap_parseNil (B : Nat) (grow : Nat → Nat → Nat) (fuel : Nat)
     have hGo : optSuffixArrayParser_Parse_nilable grow fuel ce s true blk flags =
         Res.ok (withWO s ((s.ParserBuffer.W.toNat + (ofOSAPs s).blockN : Nat) : Int), blk,
           (((ofOSAPs s).blockN : Nat) : Int), Gen.Err.ok) := by
+      have hmin : Min.min s.OSAPConfig.BlockSize ((Int.ofNat s.ParserBuffer.Data.len) - s.ParserBuffer.W) =
+          (((ofOSAPs s).blockN : Nat) : Int) := by rw [← hnG, ← ite_lt_min]
+      have hmin' : Min.min ((Int.ofNat s.ParserBuffer.Data.len) - s.ParserBuffer.W) s.OSAPConfig.BlockSize =
+          (((ofOSAPs s).blockN : Nat) : Int) := by rw [Int.min_comm]; exact hmin
+      have hsum' : (((ofOSAPs s).blockN : Nat) : Int) + s.ParserBuffer.W =
+          ((s.ParserBuffer.W.toNat + (ofOSAPs s).blockN : Nat) : Int) := by omega
       unfold optSuffixArrayParser_Parse_nilable
       simp only [if_true]
-      simp only [hnG]
-      rw [if_neg hn0, hsum]
+      simp only [gt_iff_lt, ge_iff_le, ite_lt_min, ite_le_min, hmin, hmin']
+      os_ite
+      first | rw [hsum] | rw [hsum']
     rw [hpn]
     refine ⟨_, hGo, rfl, rfl, Or.inl rfl, rfl, ?_,
       parseOKO_withW B s s h hprep _ (by omega) hle⟩
